@@ -8,7 +8,7 @@ for n in $names; do
   pid=$(python3 -c "import json;print(json.load(open('$d/meta.json')).get('property','${n:0:3}'))" 2>/dev/null || echo ${n:0:3})
   extra=$(python3 -c "import json;print(' '.join(json.load(open('$d/meta.json')).get('also_check',[])))" 2>/dev/null)
   if ! grep -q "\"property_id\": \"$pid\"" MANIFEST.json; then echo "$n: SKIP (no check for $pid yet)"; continue; fi
-  git -C /repo apply $d/patch.diff || { echo "$n: patch does not apply"; continue; }
+  git -C /repo apply /verif/$d/patch.diff || { echo "$n: patch does not apply"; continue; }
   verdict=MISSED
   for p in $pid $extra; do
     out=$(./check $p quick 2>&1); rc=$?
